@@ -1658,7 +1658,12 @@ func (c *VC) siteAsserts(st *State, s ast.Stmt) {
 	}
 	text = strings.TrimSpace(text)
 	for _, cs := range d.Sites {
-		if cs.Callee != text {
+		if strings.HasSuffix(cs.Callee, "...") {
+			// prefix form for compound statements: `site for _, key := range keys...: e`
+			if !strings.HasPrefix(text, strings.TrimSpace(strings.TrimSuffix(cs.Callee, "..."))) {
+				continue
+			}
+		} else if cs.Callee != text {
 			continue
 		}
 		t, err := c.evalDirective(st, cs.Expr, s.Pos())
